@@ -50,6 +50,8 @@ fn quiesce(
 
     let mut moves = generate_moves(board, MoveGenerationMode::CapturesOnly, zobrist_hasher);
     moves.sort_unstable_by_key(|k| Reverse(k.order_heuristic));
+    #[cfg(walleye_verif)]
+    crate::utils::verif::log_order(&moves);
     for mov in moves {
         let score = -quiesce(&mov, -beta, -alpha, search_info, zobrist_hasher);
         if score >= beta {
@@ -170,6 +172,8 @@ fn alpha_beta_search(
     }
 
     moves.sort_unstable_by_key(|k| Reverse(k.order_heuristic));
+    #[cfg(walleye_verif)]
+    crate::utils::verif::log_order(&moves);
     search_info.insert_into_cur_line(ply_from_root, &moves[0]);
     if moves[0].order_heuristic != POS_INF {
         search_info.set_principle_variation();
@@ -284,6 +288,8 @@ pub fn get_best_move(
         let beta = POS_INF;
         search_info.reset_search();
         moves.sort_unstable_by_key(|k| Reverse(k.order_heuristic));
+        #[cfg(walleye_verif)]
+        crate::utils::verif::log_order(&moves);
         for mov in &moves {
             // make an effort to exit once we are out of time
             if out_of_time(start, time_to_move_ms) {
